@@ -7,6 +7,7 @@ package main
 import (
 	"fmt"
 	"math"
+	"os"
 	"reflect"
 	"sort"
 	"strings"
@@ -41,6 +42,8 @@ type gen struct {
 	cache    map[menuKey][]mv
 	busy     map[menuKey]bool
 	impls    map[reflect.Type][]reflect.Type
+	// registered types whose only form assignable to some interface is the non-preferred one
+	encodeOnly map[string]bool
 }
 
 var (
@@ -73,8 +76,10 @@ func collectTypes() []regType {
 	for _, p := range prodPackages {
 		walk(p, false)
 	}
-	for _, p := range extraPackages {
-		walk(p, true)
+	if withExtras() {
+		for _, p := range extraPackages {
+			walk(p, true)
+		}
 	}
 	sort.Slice(out, func(i, j int) bool {
 		if out[i].pkg != out[j].pkg {
@@ -85,20 +90,33 @@ func collectTypes() []regType {
 	return out
 }
 
-func newCodec() *amino.Codec {
+// withExtras: C20_EXTRA=1 adds amino's own fixture package (tm2/pkg/amino/tests) to the universe, in a codec of its
+// own so that fixture types never show up as implementers of production interface fields.
+func withExtras() bool { return os.Getenv("C20_EXTRA") == "1" }
+
+func newCodec(extra bool) *amino.Codec {
 	cdc := amino.NewCodec()
-	for _, p := range prodPackages {
-		cdc.RegisterPackage(p)
-	}
-	for _, p := range extraPackages {
-		cdc.RegisterPackage(p)
+	if extra {
+		for _, p := range extraPackages {
+			cdc.RegisterPackage(p)
+		}
+	} else {
+		for _, p := range prodPackages {
+			cdc.RegisterPackage(p)
+		}
 	}
 	cdc.Seal()
 	return cdc
 }
 
-func newGen(cdc *amino.Codec, regs []regType, thorough bool) *gen {
-	return &gen{cdc: cdc, regs: regs, thorough: thorough, cache: map[menuKey][]mv{}, busy: map[menuKey]bool{}, impls: map[reflect.Type][]reflect.Type{}}
+func newGen(cdc *amino.Codec, all []regType, extra, thorough bool) *gen {
+	var regs []regType
+	for _, r := range all {
+		if r.extra == extra {
+			regs = append(regs, r)
+		}
+	}
+	return &gen{cdc: cdc, regs: regs, thorough: thorough, cache: map[menuKey][]mv{}, busy: map[menuKey]bool{}, impls: map[reflect.Type][]reflect.Type{}, encodeOnly: map[string]bool{}}
 }
 
 func (g *gen) info(rt reflect.Type) (info *amino.TypeInfo) {
@@ -128,8 +146,15 @@ func (g *gen) implsOf(it reflect.Type) []reflect.Type {
 		if a.Implements(it) {
 			pref = append(pref, a)
 		}
+		// amino always decodes to the preferred form, so a value whose only assignable form is the non-preferred one
+		// can be encoded but never decoded (e.g. gnolang nodes are registered by value but only *Node implements
+		// Expr/Stmt): explored for encoder parity / decoder agreement; the expected "not assignable" reject is
+		// classified separately in checkValue.
 		if it.NumMethod() > 0 && b.Implements(it) { // for the empty interface only the preferred form
 			other = append(other, b)
+			if !a.Implements(it) {
+				g.encodeOnly[b.String()+" in "+it.String()] = true
+			}
 		}
 	}
 	out := append(pref, other...)
@@ -161,7 +186,7 @@ func first(m []mv, n int) []mv {
 
 func (g *gen) width() int {
 	if g.thorough {
-		return 4
+		return 6
 	}
 	return 2
 }
@@ -338,7 +363,7 @@ func (g *gen) menu0(rt reflect.Type, depth int) (out []mv) {
 		}
 		w := 1
 		if g.thorough {
-			w = 2
+			w = 3
 		}
 		for _, ft := range g.implsOf(rt) {
 			name := ft.String()
@@ -408,16 +433,11 @@ func (g *gen) values(rt reflect.Type, depth, k int) []mv {
 			mk([]int{i}, []mv{m})
 		}
 	}
-	A := 2
+	A, A3 := 2, 1
 	if g.thorough {
-		A = 3
+		A, A3 = 6, 2
 	}
-	pick := func(m []mv, n int) []mv { // first n-1 entries plus the last one (menus are ordered small..large/odd)
-		if len(m) <= n {
-			return m
-		}
-		return append(append([]mv{}, m[:n-1]...), m[len(m)-1])
-	}
+	pick := first
 	if k >= 2 {
 		for i := range fields {
 			for j := i + 1; j < len(fields); j++ {
@@ -433,10 +453,13 @@ func (g *gen) values(rt reflect.Type, depth, k int) []mv {
 		for i := range fields {
 			for j := i + 1; j < len(fields); j++ {
 				for l := j + 1; l < len(fields); l++ {
-					if len(menus[i]) == 0 || len(menus[j]) == 0 || len(menus[l]) == 0 {
-						continue
+					for _, a := range pick(menus[i], A3) {
+						for _, b := range pick(menus[j], A3) {
+							for _, c := range pick(menus[l], A3) {
+								mk([]int{i, j, l}, []mv{a, b, c})
+							}
+						}
 					}
-					mk([]int{i, j, l}, []mv{menus[i][0], menus[j][0], menus[l][0]})
 				}
 			}
 		}
